@@ -201,12 +201,10 @@ theorem mem_dropLast {α : Type} (x : α) : ∀ (l : List α), x ∈ l.dropLast 
   have := List.dropLast_subset l
   exact this h
 
-theorem saveAppend_spec (s s' : St) (k : Int) (h : LH)
+theorem saveAppendAt_spec (s s' : St) (k : Int) (h : LH) (p u : Int)
     (hold : ∀ it ∈ h.items, it.line = s.line ∨ it.line ∈ allLines s)
-    (hr : saveAppend s k h = .ok s') :
+    (hr : saveAppendAt s k h p u = .ok s') :
     s'.line = s.line ∧ ∀ l ∈ allLines s', l = s.line ∨ l ∈ allLines s := by
-  unfold saveAppend at hr
-  generalize (if h.pos > (h.items.length : Int) then (h.items.length : Int) else h.pos) = p at hr
   unfold saveAppendAt at hr
   split at hr
   · cases hr
@@ -221,6 +219,17 @@ theorem saveAppend_spec (s s' : St) (k : Int) (h : LH)
         rcases hit' with h1 | rfl
         · exact hold it' (List.mem_of_mem_take h1)
         · exact Or.inl rfl
+
+theorem saveAppend_spec (s s' : St) (k : Int) (h : LH)
+    (hold : ∀ it ∈ h.items, it.line = s.line ∨ it.line ∈ allLines s)
+    (hr : saveAppend s k h = .ok s') :
+    s'.line = s.line ∧ ∀ l ∈ allLines s', l = s.line ∨ l ∈ allLines s := by
+  unfold saveAppend at hr
+  generalize (if h.pos > (h.items.length : Int) then (h.items.length : Int) else h.pos) = p at hr
+  simp only at hr
+  split at hr
+  · cases hr
+  · exact saveAppendAt_spec s s' k h p _ hold hr
 
 /-- `save`: the buffer is untouched and the only text the histories can gain is the buffer's. -/
 theorem save_spec (s s' : St) (hr : save s = .ok s') :
